@@ -53,8 +53,8 @@ def run(ctx):
     base = dict(NS=ns, MaxOps=3 if not thorough else 4, Seed=ctx.seed, QPerStep=1, RecHist='FALSE')
     f_mc = pool.submit(ctx.tlc, SPEC, cfg(base, 'TypeOK ImplExact NoLeak'), timeout=1700, coverage=True, tag='mc', workers=min(6, ncpu), heap='4g')
     f_lead = pool.submit(ctx.tlc, SPEC, cfg(base, 'NoStaleNames'), timeout=900, tag='lead', workers=2, heap='2g', count=False)
-    nsim = 160 if not thorough else 2500
-    gen = dict(NS=ns, MaxOps=6 if not thorough else 8, Seed=ctx.seed, QPerStep=10 if not thorough else 14, RecHist='TRUE')
+    nsim = 160 if not thorough else 900
+    gen = dict(NS=ns, MaxOps=6 if not thorough else 7, Seed=ctx.seed, QPerStep=10 if not thorough else 12, RecHist='TRUE')
     f_gen = pool.submit(ctx.tlc, SPEC, cfg(gen, 'Emit', view=False), timeout=1700, tag='gen', workers=min(4, ncpu), heap='3g',
                         simulate={'num': nsim}, depth=gen['MaxOps'] + 2)
     binary = ctx.go_build('tsimeta')
